@@ -70,6 +70,35 @@ class AstShim:
 _LE_CACHE: dict = {}
 
 
+class CModuleShim:
+    """stands in for a C extension module (unicodedata, ...) imported by the code under analysis: its functions cannot see through a
+    proxy, so proxy arguments are concretised by fork (every value of the symbolic characters is explored) before the real call"""
+    _PASS = frozenset({"functools", "itertools", "_functools", "builtins", "sys", "re", "_sre"})
+
+    def __init__(self, mod):
+        self.__dict__["_mod"] = mod
+
+    @staticmethod
+    def _c(a):
+        return a.concrete() if isinstance(a, SymStr) else a
+
+    def __getattr__(self, n):
+        v = getattr(self._mod, n)
+        if not callable(v) or isinstance(v, type):
+            return v
+        c = self._c
+
+        def call(*a, **k):
+            return v(*[c(x) for x in a], **{kk: c(x) for kk, x in k.items()})
+        return call
+
+
+def _shim_c_modules(ns):
+    for k, v in list(ns.items()):
+        if isinstance(v, types.ModuleType) and v.__name__ not in CModuleShim._PASS and not str(getattr(v, "__file__", "") or "").endswith(".py"):
+            ns[k] = CModuleShim(v)
+
+
 def _quiet_print(*a, **k):
     """verbose tracing of the code under analysis: output discarded (its arguments are still evaluated)"""
     return None
@@ -170,6 +199,7 @@ def _load_rewritten(repo, pkgname="peg_parser", only=MODS):
             sys.modules[f"{pkgname}.{m}"] = mod
             setattr(pkg, m, mod)
             exec(code, mod.__dict__)
+            _shim_c_modules(mod.__dict__)
             if m == "tokenize":
                 mod._compile = chars.sym_compile
             if "ast" in mod.__dict__ and m in ("subheader", "parser"):
